@@ -65,6 +65,11 @@ pub struct TlsCase {
     /// then replaced by the real one: the configuration in force is the last one set
     #[serde(default)]
     pub reconfig: bool,
+    /// the request carries a Host header naming something else than the URI host: 1 a name the
+    /// certificate covers (example.com), 2 a name it does not cover, 3 an IP address it covers. The
+    /// server name offered and the name the certificate is checked against stay the URI host.
+    #[serde(default)]
+    pub host_hdr: u8,
 }
 
 // ------------------------------------------------------------------------------------------------
@@ -430,7 +435,11 @@ impl Engine for TlsEngine {
         let peer = Arc::new(Mutex::new(PeerObs::default()));
         let transport = PeerTransport { case: c.clone(), wire: wire.clone(), peer: peer.clone() };
         let rt = tokio::runtime::Builder::new_current_thread().enable_time().start_paused(true).build().unwrap();
-        let parts = http::Request::get(parsed).body(()).unwrap().into_parts().0;
+        let mut parts = http::Request::get(parsed).body(()).unwrap().into_parts().0;
+        if let Some(h) = [None, Some("example.com"), Some("notinsan.test"), Some("127.0.0.1")][c.host_hdr as usize % 4] {
+            parts.headers.insert(http::header::HOST, http::HeaderValue::from_static(h));
+            rep.class("host-header-names-another-host");
+        }
         let client_tls = c.client_tls;
         let alpn = c.alpn;
         let reconfig = c.reconfig;
@@ -587,6 +596,7 @@ pub fn strategy() -> impl proptest::strategy::Strategy<Value = TlsCase> {
         prop_oneof![3 => 0u8..16, 1 => 16u8..64],
         prop_oneof![5 => Just(true), 1 => Just(false)],
         prop_oneof![2 => Just(false), 1 => Just(true)],
+        prop_oneof![3 => Just(0u8), 2 => Just(1u8), 1 => Just(2u8), 1 => Just(3u8)],
     )
-        .prop_map(|(scheme, (host, ghost), port, peer, arg, alpn, client_tls, reconfig)| TlsCase { scheme, host, ghost, port, peer, arg, alpn, client_tls, reconfig })
+        .prop_map(|(scheme, (host, ghost), port, peer, arg, alpn, client_tls, reconfig, host_hdr)| TlsCase { scheme, host, ghost, port, peer, arg, alpn, client_tls, reconfig, host_hdr })
 }
